@@ -3,10 +3,11 @@
 //                                c: a = Array<T>, k = Stack<T>, q = Queue<T>
 // Six handle slots per (t,c); a slot holds a heap-allocated container object or nothing.
 // Index arguments are total: reduced modulo the current length (+1 where the end is a legal position).
-// Output: <result> | <view of slot 0> ... <view of slot 5> [| L<live Counted objects>]
+// Output: <result> | <view of slot 0> ... <view of slot 5> | K<cap of slot 0>,...,<cap of slot 5> [| L<live Counted objects>]
 //   view = "-" (no object) or len/rc/elements (elements as a list up to 12, else a hash of the sequence).
-// Only public API observables are used: length(), operator[], rc(), cap() (cap() only to decide the
-// documented exclusion "operation would grow a block whose rc() > 1", known finding shared-growth).
+// Only public API observables are used: length(), operator[], rc(), cap().  cap() decides the documented exclusion
+// "operation would grow a block whose rc() > 1" (known finding shared-growth) and is printed after every op
+// (section K) so that the model's growth policy and allocation path are compared with the source on every op.
 #include "common.h"
 #include <asl/Array.h>
 #include <asl/Stack.h>
@@ -52,6 +53,13 @@ template<class T> struct Pred {
 	long long m, r;
 	Pred(long long m_, long long r_) : m(m_ + 1), r(r_ % (m_ + 1)) {}
 	bool operator()(const T& x) const { return ((key(x) % m) + m) % m == r; }
+};
+template<class T> struct KeyOf { long long operator()(const T& x) const { return key(x); } };
+// n elements parsed into an exact-size heap array outside every asl::Array (argument of the pointer variants)
+template<class T> struct Buf {
+	T* p; int n;
+	Buf(const Toks& t, size_t from) : n((int)(t.size() - from)) { p = new T[n]; for (int i = 0; i < n; i++) parse(t[from + i], p[i]); }
+	~Buf() { delete[] p; }
 };
 template<class T> struct Desc { bool operator()(const T& a, const T& b) const { return b < a; } };
 
@@ -109,6 +117,7 @@ template<class C, class T> struct Table {
 		if (n < 3) return "bad-op";
 		int h = slot(t[2]);
 		if (op == "new" && n == 3) { delete H[h]; H[h] = 0; H[h] = new C(); return "ok"; }
+		if (op == "newp" && n >= 3) { Buf<T> b(t, 3); delete H[h]; H[h] = 0; Array<T> r(b.p, b.n); store(h, r); return "ok"; }
 		if (op == "newn" && n == 5) { T v; parse(t[4], v); delete H[h]; H[h] = 0; Array<T> r((int)num(t[3]), v); store(h, r); return "ok"; }
 		if (op == "cp" && n == 4) { int g = slot(t[3]); if (!H[g]) return "skip"; C* c = new C(*H[g]); delete H[h]; H[h] = c; return "ok"; }
 		if (op == "asg" && n == 4) { int g = slot(t[3]); if (!H[h] || !H[g]) return "skip"; *H[h] = *H[g]; return "ok"; }
@@ -135,7 +144,7 @@ template<class C, class T> struct Table {
 		std::string out;
 		if (extra(a, t, out)) return out;
 		if (op == "drop" && n == 3) { delete H[h]; H[h] = 0; return "ok"; }
-		if (op == "app" && n == 4) { T v; parse(t[3], v); if (len >= a.cap() && shared) return "skip"; if (len & 1) a << v; else a.insert(-1, v); return "ok"; }
+		if (op == "app" && n == 4) { T v; parse(t[3], v); if (len >= a.cap() && shared) return "skip"; if (len % 3 == 1) a << v; else if (len % 3 == 2) (a, v); else a.insert(-1, v); return "ok"; }
 		if (op == "xapp" && n == 4) { T v; parse(t[3], v); a << v; return "ok"; }   // unguarded: probe of the known finding
 		if (op == "ins" && n == 5) { T v; parse(t[4], v); if (len >= a.cap() && shared) return "skip"; a.insert((int)(num(t[3]) % (len + 1)), v); return "ok"; }
 		if (op == "appo" && n == 4) { if (len == 0) return "ok"; if (len >= a.cap() && shared) return "skip"; a << a[(int)(num(t[3]) % len)]; return "ok"; }
@@ -151,6 +160,26 @@ template<class C, class T> struct Table {
 		if (op == "clr" && n == 3) { a.clear(); return "ok"; }
 		if (op == "sort" && n == 3) { a.sort(); return "ok"; }
 		if (op == "sortd" && n == 3) { a.sort(Desc<T>()); return "ok"; }
+		if (op == "sortby" && n == 4) { a.sortBy(KeyOf<T>(), num(t[3]) != 0); return "ok"; }
+		if (op == "copyp" && n >= 3) { Buf<T> b(t, 3); if (b.n > a.cap() && shared) return "skip"; a.copy(b.p, b.n); return "ok"; }
+		if (op == "appp" && n >= 3) { Buf<T> b(t, 3); if (len + b.n > a.cap() && shared) return "skip"; a.append(b.p, b.n); return "ok"; }
+		if (op == "iter" && n == 3) {
+			// every way of enumerating must visit exactly operator[](0..len-1)
+			long long want = 7, h1 = 7, h2 = 7, h3 = 7, h4 = 7, h5 = 7; int c3 = 0;
+			for (int i = 0; i < len; i++) want = (want * 131 + code(a[i])) % 1000000007;
+			for (auto& x : a) h1 = (h1 * 131 + code(x)) % 1000000007;
+			const C& ca = a;
+			for (const auto& x : ca) h2 = (h2 * 131 + code(x)) % 1000000007;
+			foreach(T& x, a) h3 = (h3 * 131 + code(x)) % 1000000007;
+			for (typename Array<T>::Enumerator e = a.all(); e; ++e) { if (~e != c3++) return "err enumerator-index"; h4 = (h4 * 131 + code(*e)) % 1000000007; }
+			int half = len / 2;
+			for (int i = 0; i < half; i++) h5 = (h5 * 131 + code(a[i])) % 1000000007;
+			if (half > 0) { typename Array<T>::Enumerator e = a.slice_(half); if (e.length() != len - half) return "err slice_-length";
+				for (; e; ++e) h5 = (h5 * 131 + code(*e)) % 1000000007; }
+			else h5 = want;
+			if (h1 != want || h2 != want || h3 != want || h4 != want || h5 != want || c3 != len) return "err enumeration-mismatch";
+			return "ok";
+		}
 		if (op == "dup" && n == 3) { a.dup(); return "ok"; }
 		if (op == "remif" && n == 5) { a.removeIf(Pred<T>(num(t[3]), num(t[4]))); return "ok"; }
 		if (op == "apnd" && n == 4) { int g = slot(t[3]); if (!H[g]) return "skip"; if (len + H[g]->length() > a.cap() && shared) return "skip"; a.append(*H[g]); return "ok"; }
@@ -165,7 +194,7 @@ template<class C, class T> struct Table {
 
 	static bool known(const std::string& op, size_t n)
 	{
-		static const char* ops[] = { "drop", "app", "xapp", "push", "put", "ins", "appo", "inso", "insx", "rem", "remone", "reml", "rsz", "res", "clr", "sort", "sortd",
+		static const char* ops[] = { "drop", "app", "xapp", "push", "put", "ins", "appo", "inso", "insx", "rem", "remone", "reml", "rsz", "res", "clr", "sort", "sortd", "sortby", "copyp", "appp", "iter",
 			"dup", "remif", "apnd", "copy", "set", "get", "idx", "last", "eq", "pop", "popn", "popget", "top", "qget", 0 };
 		for (int i = 0; ops[i]; i++) if (op == ops[i]) return true;
 		return false;
@@ -178,6 +207,8 @@ template<class C, class T> struct Table {
 		if (t[1] == "reset") return r;
 		r += " |";
 		for (int i = 0; i < NS; i++) r += " " + view<T>(H[i]);
+		r += " | K";
+		for (int i = 0; i < NS; i++) { if (i) r += ","; r += H[i] ? str(H[i]->cap()) : std::string("-"); }
 		if (showLive) r += " | L" + str(Counted::live);
 		return r;
 	}
